@@ -20,6 +20,7 @@ pub mod c17;
 pub mod c18;
 pub mod c19;
 pub mod c20;
+pub mod c20_real;
 
 pub fn c13_seeds() -> Vec<&'static str> {
     vec![
